@@ -27,7 +27,18 @@ pub enum Step {
     ReqVote { from: u8, dterm: i8, log: u8 },
     /// AppendEntries from scripted leader: prev = last_index - back (back=3: beyond the end);
     /// n new entries in the leader's term (conflict truncation when back>0)
-    Append { from: u8, dterm: i8, back: u8, n: u8, commit_back: u8, bad_prev: bool },
+    /// `old`: the new entries carry the term (leader term - old), floored at the term of
+    /// the entry they follow — a leader replicating entries of earlier terms
+    Append {
+        from: u8,
+        dterm: i8,
+        back: u8,
+        n: u8,
+        commit_back: u8,
+        bad_prev: bool,
+        #[serde(default)]
+        old: u8,
+    },
     Election,
     VoteResp { from: u8, granted: bool, dterm: i8 },
     AppendResp { from: u8, ok: bool, back: u8, dterm: i8 },
@@ -92,6 +103,7 @@ struct Trial<'a> {
     payload_seq: u64,
     tag: u64,
     disk_faults_at_start: u64,
+    hard_faults_at_start: u64,
     /// the scripted peers respect election safety and leader append-only: one leader
     /// per term, one entry per (term, index) — otherwise the scripted histories would
     /// lie outside what any Raft cluster can produce
@@ -108,8 +120,9 @@ impl<'a> Trial<'a> {
         // each trial gets its own node directory name so files never mix
         let (cl, r) = Cluster::new_partial(ctx, 3, raft_cfg(case), true, &[]);
         let _ = r;
-        let mut t = Trial { ctx, case, cl, acked: Vec::new(), votes: BTreeMap::new(), max_term_sent: 0, payload_seq: tag * 1000, tag, disk_faults_at_start: 0, term_leader: BTreeMap::new(), script_entries: BTreeMap::new() };
+        let mut t = Trial { ctx, case, cl, acked: Vec::new(), votes: BTreeMap::new(), max_term_sent: 0, payload_seq: tag * 1000, tag, disk_faults_at_start: 0, hard_faults_at_start: 0, term_leader: BTreeMap::new(), script_entries: BTreeMap::new() };
         t.disk_faults_at_start = ctx.lock().faults.iter().filter(|(k, _)| k.starts_with("disk_")).map(|(_, v)| *v).sum();
+        t.hard_faults_at_start = Self::hard_faults(ctx);
         // fresh WAL file per trial, nothing armed from a previous trial
         ctx.disarm_crash();
         ctx.clear_faults();
@@ -150,6 +163,19 @@ impl<'a> Trial<'a> {
         self.payload_seq += 1;
         self.script_entries.insert((term, index), self.payload_seq);
         self.payload_seq
+    }
+
+    /// Injected I/O *errors* (EIO, ENOSPC, full disk) are outside C10's quantifier, which
+    /// speaks of crashes at any byte of a log write. Once one has fired in a trial, what
+    /// the oracle finds afterwards is reported as an observation, never as a verdict.
+    /// (Short writes and EINTR are legal behaviour of write(2) and stay in the verdict.)
+    fn hard_faults(ctx: &RunCtx) -> u64 {
+        let g = ctx.lock();
+        ["disk_eio", "disk_enospc", "disk_full_statvfs"].iter().map(|k| g.faults.get(k).copied().unwrap_or(0)).sum()
+    }
+
+    pub fn hard_fault_fired(&self) -> bool {
+        Self::hard_faults(self.ctx) > self.hard_faults_at_start
     }
 
     fn node_image(&self) -> Image {
@@ -240,7 +266,7 @@ impl<'a> Trial<'a> {
                     self.cl.push(NODE, &cand, r);
                 }
             },
-            Step::Append { from, dterm, back, n, commit_back, bad_prev } => {
+            Step::Append { from, dterm, back, n, commit_back, bad_prev, old } => {
                 let leader = format!("n{}", 1 + from % 2);
                 let term = self.leader_term(rel(*dterm), &leader);
                 let prev = if *back >= 3 { l + 1 } else { l.saturating_sub(u64::from(*back)) };
@@ -253,9 +279,14 @@ impl<'a> Trial<'a> {
                     prev_term += 1;
                 }
                 let mut entries = Vec::new();
+                let floor = if prev == 0 { 1 } else { img.log.get(prev as usize - 1).map(|e| e.term).unwrap_or(1) };
+                let eterm = term.saturating_sub(u64::from(*old)).max(floor).max(1).min(term);
+                if eterm < term {
+                    self.ctx.probe("append_of_older_term_entries");
+                }
                 for j in 0..u64::from(*n % 4) {
-                    let pl = self.script_payload(term, prev + 1 + j);
-                    entries.push(LogEntry::new(term, prev + 1 + j, mk_block(pl, &leader, self.case.fast_path)));
+                    let pl = self.script_payload(eterm, prev + 1 + j);
+                    entries.push(LogEntry::new(eterm, prev + 1 + j, mk_block(pl, &leader, self.case.fast_path)));
                 }
                 let commit = (prev + entries.len() as u64).saturating_sub(u64::from(*commit_back));
                 let emb = entries.last().map(|e| e.block.header.delta_embedding.clone());
@@ -597,6 +628,20 @@ impl<'a> Trial<'a> {
     }
 }
 
+/// See `Trial::hard_faults`: after an injected I/O error a finding is an observation.
+fn downgrade(r: Result<(), Violation>, t: &Trial<'_>, out: &mut RunOut) -> Result<(), Violation> {
+    match r {
+        Err(v) if t.hard_fault_fired() => {
+            let o = format!("observation (injected I/O error, outside C10's quantifier): {}", v.class);
+            if !out.observations.contains(&o) {
+                out.observations.push(o);
+            }
+            Ok(())
+        },
+        other => other,
+    }
+}
+
 fn sample_offsets(len: usize) -> Vec<usize> {
     if len <= 24 {
         return (1..len).collect();
@@ -628,6 +673,7 @@ fn gen_steps(rng: &mut Rng, n: usize, faults: bool) -> Vec<Step> {
                 n: rng.below(4) as u8,
                 commit_back: rng.below(3) as u8,
                 bad_prev: rng.chance(1, 8),
+                old: *rng.pick(&[0u8, 0, 0, 1, 2]),
             }
         } else if r < 58 {
             Step::Election
@@ -712,6 +758,7 @@ impl Scenario for C10 {
                     Err(v) => return RunOut { violation: Some(v), nontrivial: true, ..Default::default() },
                 };
                 let (r, _) = t.run(specs, false);
+                let r = downgrade(r, &t, &mut out);
                 out.inner_evals = 1;
                 out.nontrivial = ctx.lock().faults.get("crash").copied().unwrap_or(0) > 0;
                 if let Err(v) = r {
@@ -724,6 +771,7 @@ impl Scenario for C10 {
                     Err(v) => return RunOut { violation: Some(v), nontrivial: true, ..Default::default() },
                 };
                 let (r, syslog) = t.run(&[], true);
+                let r = downgrade(r, &t, &mut out);
                 out.inner_evals = 1;
                 if let Err(v) = r {
                     out.violation = Some(v);
@@ -748,6 +796,7 @@ impl Scenario for C10 {
                         };
                         tag += 1;
                         let (r, _) = t.run(std::slice::from_ref(&spec), false);
+                        let r = downgrade(r, &t, &mut out);
                         out.inner_evals += 1;
                         if let Err(mut v) = r {
                             v.detail = format!("{} [crash spec {:?}]", v.detail, spec);
